@@ -14,7 +14,8 @@ from vlib import NoVerdict
 
 OWN = {"noPanic", "returns", "replyWellFormed"}
 DEV_CFGS = [("MC_Wire_DevEmptyTalkReq.cfg", "NoPanic"), ("MC_Wire_DevOneByteContent.cfg", "NoPanic"), ("MC_Wire_DevEmptyKey.cfg", "NoPanic"),
-            ("MC_Wire_DevShortSummariesKey.cfg", "NoPanic"), ("MC_Wire_DevNilGetter.cfg", "NoPanic"), ("MC_Wire_DevZeroLenUpdate.cfg", "NoPanic"), ("MC_Wire_DevSeqSummaries.cfg", "NoPanic")]
+            ("MC_Wire_DevShortSummariesKey.cfg", "NoPanic"), ("MC_Wire_DevNilGetter.cfg", "NoPanic"), ("MC_Wire_DevZeroLenUpdate.cfg", "NoPanic"), ("MC_Wire_DevSeqSummaries.cfg", "NoPanic"),
+            ("MC_Wire_DevFollowUp.cfg", "NoPanic")]
 SLIM = ("ev", "mode", "out", "rdec", "mut", "c", "f")
 CASE_KEYS = ("ch", "net", "kind", "code", "n", "off", "io", "sub", "sv", "pl", "pn", "cnt", "kc", "ksel", "kn", "cc", "ver", "st")
 
